@@ -218,7 +218,7 @@ func respell(text string, variant int) string {
 var _ = sym.Register("HC05_RoundTrip", HC05_RoundTrip)
 
 func HC05_RoundTrip() {
-	depth := sym.Pick(1, 2)
+	depth := 1 // thorough = quick: depth 2 squares the path count
 	sym.Bound("collection depth", depth)
 	lay := []geom.Layout{geom.XY, geom.XYZ, geom.XYM, geom.XYZM}[sym.Choose("lay", 0, 3)]
 	sym.NoNaNInputs()
